@@ -1,7 +1,8 @@
 ---- MODULE MCCodegenPipeline ----
 EXTENDS CodegenPipeline
-\* three modules; module 2 holds a protobuf message (item 21) with three sibling nested messages
+\* four files over three modules (files 1 and 4 share module 1); file 2 holds a protobuf message (item 21) with three
+\* sibling nested messages
 MCMods == {1, 2, 3}
-MCItems == [m \in MCMods |-> IF m = 1 THEN <<11, 12>> ELSE IF m = 2 THEN <<21, 22>> ELSE <<31>>]
-MCNested == [x \in {11, 12, 21, 22, 31} |-> IF x = 21 THEN <<211, 212, 213>> ELSE <<>>]
+MCFiles == << [mod |-> 1, items |-> <<11, 12>>], [mod |-> 2, items |-> <<21, 22>>], [mod |-> 3, items |-> <<31>>], [mod |-> 1, items |-> <<13>>] >>
+MCNested == [x \in {11, 12, 13, 21, 22, 31} |-> IF x = 21 THEN <<211, 212, 213>> ELSE <<>>]
 ====
